@@ -25,10 +25,18 @@ def _bencode(data: typing.Union[int, bytes, bytearray, str, list, tuple, dict]) 
         raise TypeError(f"Cannot bencode {type(data)}")
 
 
+def _decimal(number: bytes) -> int:
+    # int() also accepts surrounding whitespace, a "+" sign and "_" between digits, none of which is bencode
+    digits = number[1:] if number[:1] == b'-' else number
+    if not digits.isdigit():
+        raise DecodeError(f"invalid number: {number[:32]!r}")
+    return int(number)
+
+
 def _bdecode(data: bytes, start_index: int = 0) -> typing.Tuple[typing.Union[int, bytes, list, tuple, dict], int]:
     if data[start_index] == ord('i'):
         end_pos = data[start_index:].find(b'e') + start_index
-        return int(data[start_index + 1:end_pos]), end_pos + 1
+        return _decimal(data[start_index + 1:end_pos]), end_pos + 1
     elif data[start_index] == ord('l'):
         start_index += 1
         decoded_list = []
@@ -47,7 +55,7 @@ def _bdecode(data: bytes, start_index: int = 0) -> typing.Tuple[typing.Union[int
     else:
         split_pos = data[start_index:].find(b':') + start_index
         try:
-            length = int(data[start_index:split_pos])
+            length = _decimal(data[start_index:split_pos])
         except (ValueError, TypeError) as err:
             raise DecodeError(err)
         if length < 0:
